@@ -33,6 +33,7 @@ from typing import (
 from abc import abstractmethod, ABCMeta
 import textwrap
 import threading
+import weakref
 import inspect
 import types
 import typing
@@ -41,16 +42,27 @@ if TYPE_CHECKING:
     from semantiva.logger import Logger
 
 
-# A thread-safe registry mapping category names to component classes
-_COMPONENT_REGISTRY: Dict[str, List[Type[_SemantivaComponent]]] = {}
+# A thread-safe registry mapping category names to component classes.
+# Classes are held through weak references: node, adapter and shorthand classes
+# are generated anew for every run, and a strong registry kept every one of them
+# (and everything hanging off them) alive for the life of the process.
+_COMPONENT_REGISTRY: Dict[str, List["weakref.ReferenceType[type]"]] = {}
 _REGISTRY_LOCK = threading.Lock()
 
 
 def get_component_registry() -> Dict[str, List[Type[_SemantivaComponent]]]:
     """
     Returns the global component registry, which maps component categories to their respective classes.
+
+    The result is a snapshot of the classes that are still alive, in registration order.
     """
-    return _COMPONENT_REGISTRY
+    snapshot: Dict[str, List[Type[_SemantivaComponent]]] = {}
+    with _REGISTRY_LOCK:
+        for category, refs in _COMPONENT_REGISTRY.items():
+            alive = [(ref, ref()) for ref in refs]
+            refs[:] = [ref for ref, cls in alive if cls is not None]
+            snapshot[category] = [cls for _, cls in alive if cls is not None]
+    return snapshot
 
 
 class _SemantivaComponentMeta(ABCMeta):
@@ -75,7 +87,10 @@ class _SemantivaComponentMeta(ABCMeta):
                 return
             if cat:
                 with _REGISTRY_LOCK:
-                    _COMPONENT_REGISTRY.setdefault(cat, []).append(cls)
+                    bucket = _COMPONENT_REGISTRY.setdefault(cat, [])
+                    # drop entries whose class has been collected
+                    bucket[:] = [ref for ref in bucket if ref() is not None]
+                    bucket.append(weakref.ref(cls))
 
 
 class _SemantivaComponent(metaclass=_SemantivaComponentMeta):
